@@ -703,6 +703,56 @@ def extra(rng, tier):
                 violations.append({"line": label, "out": "%s %s" % (err, datas),
                                    "why": "a %s: the client received %s%s, the producer yielded %s"
                                           % (label, datas, (" and the stream raised %s" % err[0]) if err else "", want)})
+    # one response object over a re-iterable source (a list; on ASGI an object whose __aiter__ starts afresh) answering
+    # three requests in turn: every client receives every event
+    source = [{"data": "event %d" % i} for i in range(4)]
+    want = ["event %d" % i for i in range(4)]
+
+    class _Again:
+        def __aiter__(self):
+            async def gen():
+                for ev in source:
+                    yield dict(ev)
+            return gen()
+
+    for iface in ("wsgi", "asgi"):
+        try:
+            if iface == "wsgi":
+                resp = wsgi_responses.SendEventResponse([dict(e) for e in source], ping_interval=60)
+            else:
+                resp = asgi_responses.SendEventResponse(_Again(), ping_interval=60)
+            for turn in range(3):
+                got = []
+                if iface == "wsgi":
+                    body = resp({"REQUEST_METHOD": "GET"}, lambda status, headers, exc_info=None: None)
+                    try:
+                        for chunk in body:
+                            got.append(chunk)
+                    finally:
+                        if hasattr(body, "close"):
+                            body.close()
+                else:
+                    async def main():
+                        async def receive():
+                            await asyncio.Event().wait()
+
+                        async def send(msg):
+                            if msg["type"] == "http.response.body" and msg.get("body"):
+                                got.append(msg["body"])
+
+                        await asyncio.wait_for(resp({"type": "http", "method": "GET", "headers": []}, receive, send), 20)
+
+                    asyncio.run(main())
+                runs += 1
+                datas = [r[3] for r in whatwg_parse(b"".join(got).decode("utf-8", "replace"))]
+                if datas != want:
+                    violations.append({"line": "reused %s response, request %d" % (iface, turn + 1), "out": str(datas),
+                                       "why": "request %d to one %s SendEventResponse over a re-iterable source: the client "
+                                              "received %s, the source yields %s" % (turn + 1, iface.upper(), datas, want)})
+                    break
+        except BaseException as exc:  # noqa
+            violations.append({"line": "reused %s response" % iface, "out": exc_name(exc),
+                               "why": "a reused SendEventResponse raised %s" % exc_name(exc)})
     return {"violations": violations, "real_time_streams": runs}
 
 
